@@ -41,6 +41,7 @@ var c11Space = mkSpace("config", []fieldDim{
 	{"MetaSig", []string{"", "on"}},
 	{"Host", []string{"", "b.example:8443", "[::1]:8080"}},
 	{"Rotate", []string{"", "before-second-fetch"}},
+	{"Outage", []string{"", world.FaultError, world.FaultCtxDeadline, world.FaultNilRecord, world.FaultNoCert, world.FaultNoKey}},
 })
 
 type c11P map[string]string
@@ -295,6 +296,50 @@ func c11Judge(p c11P) c11Verdict {
 			bad("after-key-rotation:no-success-response")
 		}
 	}
+	// history: another tenant (host) fetches the metadata; then the signing-key lookup of the next metadata request for THIS
+	// host fails. An error reply is fine; a document that is served must still be this host's document (entityID, every
+	// endpoint location) - and, after the response key was replaced in storage, must not publish the old key.
+	if p["Outage"] != "" {
+		snapshot := func(root *xt.Node) string {
+			var sb strings.Builder
+			sb.WriteString("entityID=" + root.A("entityID"))
+			root.Walk(func(n *xt.Node) {
+				if n.HasA("Location") {
+					sb.WriteString(" " + n.Local + "[" + n.A("Binding") + "]=" + n.A("Location"))
+				}
+			})
+			return sb.String()
+		}
+		want := snapshot(mdRoot)
+		w.Do(world.NewRequest("GET", "other-tenant.example", w.Cfg.MetadataPath(), nil, "", nil))
+		w.Store.FaultNext("GetResponseSigningKey", 1, p["Outage"])
+		r1, rep1 := fetch()
+		switch {
+		case rep1.Panic != "":
+			v.Classes = append(v.Classes, "outage:blocked_by_panic")
+		case r1 == nil:
+			v.Classes = append(v.Classes, "outage:refused")
+		default:
+			v.Classes = append(v.Classes, "outage:served")
+			if got := snapshot(r1); got != want {
+				bad("metadata-served-during-a-key-outage-is-not-this-hosts-document", got, " vs ", want)
+			}
+		}
+		w.Store.RespKey = &key.CertificateAndKey{Certificate: world.SPB.DER, Key: world.SPB.RSA}
+		w.Store.FaultNext("GetResponseSigningKey", 1, p["Outage"])
+		if r2, _ := fetch(); r2 != nil {
+			v.Classes = append(v.Classes, "outage-after-rotation:served")
+			for _, k := range r2.Path("IDPSSODescriptor").Children("KeyDescriptor") {
+				if k.A("use") != "signing" {
+					continue
+				}
+				der, _ := b64dec(strings.Join(strings.Fields(k.Path("KeyInfo", "X509Data", "X509Certificate").TextContent()), ""))
+				if !bytes.Equal(der, world.SPB.DER) {
+					bad("metadata-served-during-a-key-outage-publishes-a-key-that-was-rotated-out")
+				}
+			}
+		}
+	}
 	return v
 }
 
@@ -340,7 +385,7 @@ func init() { Registry["C11"] = runC11 }
 func runC11(ctx Ctx) int {
 	world.PinClock()
 	run := ev.NewRun("C11")
-	run.Rule = "every assignment of 16 configuration dimensions (issuer static / with path / trailing slash / host-derived with path variants / Forwarded-derived; each of the 6 endpoints default / custom path with and without leading slash / trailing slash / deep / external URL; WantAuthRequestsSigned in 11 spellings (xs:boolean and look-alikes: True, TRUE, t, T, yes); encryption algorithm; organisation; contact; validity; cache duration; metadata signing; 3 request Hosts; response-key rotation between metadata fetches) with <= k deviations (k=2 quick, 3 thorough). One execution = one provider and a fixed history of ~14 requests: metadata, a conformant request of each kind addressed to each advertised location and sent to the route it maps onto, SSO error reply, callback success/failure, certificate endpoint, unsigned request"
+	run.Rule = "every assignment of 16 configuration dimensions (issuer static / with path / trailing slash / host-derived with path variants / Forwarded-derived; each of the 6 endpoints default / custom path with and without leading slash / trailing slash / deep / external URL; WantAuthRequestsSigned in 11 spellings (xs:boolean and look-alikes: True, TRUE, t, T, yes); encryption algorithm; organisation; contact; validity; cache duration; metadata signing; 3 request Hosts; response-key rotation between metadata fetches; a failing signing-key lookup (5 kinds) at a metadata request that follows another tenant's request, also after a key rotation) with <= k deviations (k=2 quick, 3 thorough). One execution = one provider and a fixed history of ~14 requests: metadata, a conformant request of each kind addressed to each advertised location and sent to the route it maps onto, SSO error reply, callback success/failure, certificate endpoint, unsigned request"
 	run.Assume = []string{"locations of endpoints configured with an external URL cannot be mapped onto a route; their requests are sent to the configured path with Destination = the advertised URL"}
 	if ctx.Replay != "" {
 		var p c11P
